@@ -329,16 +329,16 @@ def md_streams(tier):
 
 PROPS['C06'] = dict(
     family='line', tags={'D': 'md'},
-    theorems=['C06_nothing_dropped', 'C06_fence_needs_three', 'C06_backticks_inside_are_inert', 'C06_parse_render_partial'],
+    theorems=['C06_parse_render', 'C06_nothing_dropped', 'C06_fence_needs_three', 'C06_backticks_inside_are_inert'],
     streams=md_streams,
     spec_kinds=['SPEC:C06'], corr_kinds=['DIFF:markdown'],
     case_format='D <AST: F<i> front-matter; P<hex> prose; H<level><hex> heading; B blank; V<n><hex lang>/<hex body lines> other code block; S<n><cfg index>/<hex comments>/<hex cmd>,<hex continuations>/E<hex>,N<digits> scrut block (~ = no command)  | ^k^AST = first k lines only | ~ = soup>|<hex document text>|ok:<title^expression^expectations^code^line^config per test>/err/panic',
     rule='3 of 5 documents are rendered from a random AST of the Markdown grammar (front-matter, prose incl. lines starting with 1-2 backticks / containing ``` / `---` / `$ x`, headings, blanks, foreign blocks with 3-5 backticks and look-alike languages (`scrut `, `scrutx`), '
          'scrut blocks with 3-5 backticks, inline config, comments, continuations, bodies with shorter fences, `$ second`, `# not a comment`, `[x]`, exit codes, and blocks without a command), LF or CRLF; '
          '1 of 5 is a truncation of such a document after k lines; 1 of 5 is a soup over 25 line shapes (```é{x}, ``x, ````, unterminated fences and front-matter ...). Non-trivial: more than one line; distinct by text',
-    manifest=dict(text='Machine-checked theorems (Coq): the tokenizer model (MarkdownIterator with the end-of-document flush) is lossless for every document -- every line lands in exactly one token, in order; only a line starting with >= 3 backticks can open a block (backticks elsewhere are inert). The grammar round trip parse(render d) = tests_of d is stated for all well-formed ASTs, proved on a representative instance (named _partial) and evaluated against the implementation on every generated document: the specification function md_tests_of predicts the result of the real MarkdownParser; truncated documents must yield the tests of all complete blocks; soups must not panic and must agree with the parser model. Tied to /repo by those runs.',
-                  technique='Coq proof (token automaton losslessness, fence lemmas) + grammar-by-construction oracle and differential correspondence against the real MarkdownParser',
-                  note='Partial: the general induction for parse(render d) = tests_of d is proved for Cram (C07) but only stated and instance-checked for Markdown.'),
+    manifest=dict(text='Machine-checked theorems (Coq): the tokenizer model (MarkdownIterator with the end-of-document flush) is lossless for every document -- every line lands in exactly one token, in order; only a line starting with >= 3 backticks can open a block (backticks elsewhere are inert). The grammar round trip parse(render d) = tests_of d is PROVED for all well-formed document ASTs (C06_parse_render: token automaton run per element + line-parser invariant, no bound on the document) and the specification function md_tests_of is evaluated against the implementation on every generated document, where it predicts the result of the real MarkdownParser; truncated documents must yield the tests of all complete blocks; soups must not panic and must agree with the parser model. Tied to /repo by those runs.',
+                  technique='Coq proof (grammar round trip by induction over the document AST, token automaton losslessness, fence lemmas) + grammar-by-construction oracle and differential correspondence against the real MarkdownParser',
+                  note='serde_yaml acceptance of front-matter / inline configuration and ExpectationMaker::parse success are parameters of the theorem (front_ok, cfg_ok, pe_ok).'),
     exhaustive={'quick': False, 'thorough': False},
     assumptions=['serde_yaml acceptance of front-matter / inline configuration is a parameter (generated from a fixed table whose meaning is checked against the implementation)',
                  'title: a paragraph is a maximal run of consecutive title lines (heading text or letter-initial line); a heading directly adjacent to another title line joins it -- the specification follows the implementation here (interpretation of "nearest preceding heading or paragraph")',
